@@ -4,8 +4,9 @@ usage: verify_seed.py C05 m1    (uses the scratch worktree /tmp/seed/C05 and /tm
 import sys, os, subprocess, json, re, shutil
 pid, m = sys.argv[1], sys.argv[2]
 store = sys.argv[3] if len(sys.argv) > 3 else m   # name under /verif/seeded (e.g. m1 of round 2 is stored as m3)
-wt = "/tmp/seed/%s" % pid
-src = "/tmp/seed/%s.out/%s" % (pid, m)
+root = os.environ.get("SEED_ROOT", "/tmp/seed")
+wt = "%s/%s" % (root, pid)
+src = "%s/%s.out/%s" % (root, pid, m)
 env = dict(os.environ, GOFLAGS="-mod=mod", GOPROXY="off", GOSUMDB="off", GOTOOLCHAIN="local")
 def sh(cmd, cwd=wt, timeout=900):
     p = subprocess.run(cmd, cwd=cwd, env=env, shell=True, stdout=subprocess.PIPE, stderr=subprocess.STDOUT, text=True, timeout=timeout)
